@@ -1,3 +1,59 @@
 import Driver.Common
--- stub driver (not yet implemented)
-def main : IO Unit := Driver.run () (fun s _ => (s, "bad-op"))
+import SSV.Model.SaltPool
+import SSV.Gen.C03
+open SSV SSV.SaltPool
+
+/-- the model's parameters = the constants regenerated from /repo -/
+def genParams : Params := { maxEpochDiff := SSV.Gen.C03.MaxEpochDiff, window := SSV.Gen.C03.ReplayWindowDuration }
+
+def bit? (c : Char) : Option Bool := if c == '1' then some true else if c == '0' then some false else none
+
+/-- flags = 6 chars 0/1: complete prefixOk userOk authOk typeOk bodyOk -/
+def parseReq (salt flags ts : String) : Option Request := do
+  let s ← salt.toNat?
+  let t ← ts.toNat?
+  match flags.toList with
+  | [a, b, c, d, e, f] =>
+    pure { salt := s, complete := (← bit? a), prefixOk := (← bit? b), userOk := (← bit? c), authOk := (← bit? d),
+           typeOk := (← bit? e), ts := BitVec.ofNat 64 t, bodyOk := (← bit? f) }
+  | _ => none
+
+def b2s (b : Bool) : String := if b then "1" else "0"
+
+def stepC03 (st : State) (line : String) : State × String :=
+  match fields line with
+  | ["consts"] => (st, s!"{genParams.maxEpochDiff} {genParams.window}")
+  | ["reset", n] => match n.toNat? with
+      | some t => ({ now := t, pool := [] }, "ok")
+      | none => (st, "bad-op")
+  | ["adv", d] => match d.toNat? with
+      | some k => let st' := (step genParams st (.advance k)).1; (st', s!"ok {st'.now}")
+      | none => (st, "bad-op")
+  | ["present", salt, flags, ts, c] =>
+      match parseReq salt flags ts, c.toList with
+      | some r, [cb] => match bit? cb with
+        | some cont =>
+          match step genParams st (.present r cont) with
+          | (st', some e) => (st', e.verdict.name)
+          | (st', none) => (st', "bad-op")
+        | none => (st, "bad-op")
+      | _, _ => (st, "bad-op")
+  | ["padd", now, salt] => match now.toNat?, salt.toNat? with
+      | some t, some s => let res := add genParams t s st.pool; ({ st with pool := res.1 }, b2s res.2)
+      | _, _ => (st, "bad-op")
+  | ["pcontains", salt] => match salt.toNat? with
+      | some s => (st, b2s (contains st.pool s))
+      | none => (st, "bad-op")
+  | ["ptry", salt, c] => match salt.toNat?, c.toList with
+      | some s, [cb] => match bit? cb with
+        | some cont => (st, b2s (tryContains cont st.pool s))
+        | none => (st, "bad-op")
+      | _, _ => (st, "bad-op")
+  | ["pclear"] => ({ st with pool := [] }, "ok")
+  | ["ts", ts, ne] => match ts.toNat?, ne.toNat? with
+      | some t, some n => (st, b2s (tsValidWord genParams (BitVec.ofNat 64 t) (BitVec.ofNat 64 n)))
+      | _, _ => (st, "bad-op")
+  | ["dump"] => (st, s!"{st.now} {st.pool.map (fun n => (n.salt, n.expiresAt))}")
+  | _ => (st, "bad-op")
+
+def main : IO Unit := Driver.run ({ now := 0, pool := [] } : State) stepC03
